@@ -23,6 +23,8 @@ for x in (0.1, -2.5e300, 3.14, 1.0e-300):
 add([119, 2, 111, 107], {'atom': 'ok'}); add([118, 0, 2, 111, 107], {'atom': 'ok'})
 add([115, 2, 233, 65], {'atom': 'éA'}); add([100, 0, 3, 252, 98, 255], {'atom': 'übÿ'})
 add([119, 2, 195, 169], {'atom': 'é'})
+# Latin-1 tags whose bytes happen to be valid UTF-8: still one character per byte
+add([100, 0, 2, 195, 169], {'atom': 'Ã©'}); add([115, 2, 194, 181], {'atom': 'Âµ'})
 # strings / lists / tuples
 add([107, 0, 3, 1, 200, 255], {'list': [{'int': 1}, {'int': 200}, {'int': 255}]})
 add([108] + be(2, 4) + [97, 1] + atom('a') + [106], {'list': [{'int': 1}, {'atom': 'a'}]})
@@ -41,12 +43,15 @@ add([104, 2, 108] + be(1, 4) + [104, 1, 97, 9, 106] + [116] + be(0, 4), {'tuple'
 cases.append(dict(bytes=[131, 97, 1, 0], expect_error=True))
 cases.append(dict(bytes=[131, 104, 1, 97, 1, 97, 2], expect_error=True))
 
+# COMPRESSED (the replay crate deflates `inner`): exactly one term inside
+cases.append(dict(gen='compressed', inner=[104, 2, 97, 1, 97, 2], expect={'tuple': [{'int': 1}, {'int': 2}]}))
+cases.append(dict(gen='compressed', inner=[97, 1, 97, 2], expect_error=True))
+
 p = json.load(open('/verif/props.json'))
-modern = lambda c: not any(t in c['bytes'][1:2] for t in (99, 100, 115))   # top tag not legacy (coarse)
 p['C03']['witness_search'] = [{'scenario': 'decode_value', 'input': c} for c in cases]
 legacy_top = (99, 100, 115)
 p['C13']['witness_search'] = [{'scenario': 'decode_value', 'input': dict(c, also_borrowed=True)} for c in cases
-                               if c['bytes'][1] != 115 and not c.get('expect_error')] + \
-                              [{'scenario': 'decode_value', 'input': dict(c, also_borrowed=True)} for c in cases if c.get('expect_error')]
+                               if 'bytes' in c and c['bytes'][1] != 115 and not c.get('expect_error')] + \
+                              [{'scenario': 'decode_value', 'input': dict(c, also_borrowed=True)} for c in cases if c.get('expect_error') and 'bytes' in c]
 json.dump(p, open('/verif/props.json', 'w'), indent=1)
 print(len(cases), 'cases')
